@@ -14,13 +14,25 @@
     (the code maps `foo` to `Foo` by `strings.Title`; the harness generates exactly that).
   * `GoVal`: nil and non-nil slices, pointers and maps are different values; an ordered map is a key list plus an
     association list (a Go map has no order: only lookups by key are ever made on it).
-  * `compatible g t nul`: the Go type bound to schema type `t` in a slot that is nullable iff `nul`.  A nullable
-    slot is a pointer; an optional struct field is a pointer; optional and nullable is a double pointer; a union
-    member is a pointer.  (`verifyCompatibility` also accepts nilable non-pointer types for optional / nullable
-    slots and superfluous pointers; these are outside the generated vocabulary, see `C19/nilable-…` in
-    known_findings.json.)
+  * `compatible g t nul`: the Go type bound to schema type `t` in a value slot that is nullable iff `nul`; struct
+    fields through `fslot`.  The slot shapes are the ones `verifyCompatibility` accepts AND the node code serves:
+      - a nullable slot is a pointer to a non-pointer type; optional and nullable is the double pointer; a union
+        member is a pointer;
+      - a slot that is NOT nullable (struct field, list element, map value, the value behind an optional field's or a
+        union member's pointer) is the type itself or ONE pointer to it (`verifyCompatibility` strips one pointer from
+        every type it is handed; the node keeps the pointer and reads through `nonPtrVal`, the assembler allocates in
+        `createNonPtrVal`; a nil pointer there is not a value of the type);
+      - an optional field that is not nullable, or a nullable field that is not optional, may be bound to a bare
+        nilable Go type (`ptrOrNilable`: slice, []byte, `datamodel.Link`, `datamodel.Node`): nil is absent / null.
+    Accepted by `verifyCompatibility` but NOT served by the node code, hence outside `compatible` (known findings /
+    probes, see known_findings.json): a nullable list element or map value bound to a bare slice (reading a non-nil
+    one panics: `C19/nullable-element-bare-slice-read-panics`), a nullable-only field bound to a double pointer
+    (the assembler panics: `C19/nullable-double-pointer-build-panics`).  The REPRESENTATION level (repr.go) does not
+    dereference the pointer of a non-nullable slot at all (`C19/plain-pointer-slot-representation-not-dereferenced`):
+    that is the business of Marshal, not of `view` / `assign`.
   * `view g t nul gv`: reading the wrapped value through the node API, in full (node.go `_node`, the iterators):
-    nil pointer in an optional field ↦ absent, nil pointer in a nullable slot ↦ null, nil slice ↦ empty list,
+    nil pointer in an optional field ↦ absent, nil pointer in a nullable slot ↦ null (nil of the bare nilable type
+    likewise, in a struct field bound to it), nil slice ↦ empty list,
     ordered map ↦ the entries in `Keys` order looked up in `Values`, union ↦ the single-entry map keyed by the
     member TYPE name of the first non-nil field, unsigned and narrow ints ↦ their value, an int-represented enum
     held in a Go integer ↦ the name of the first member with that representation int.  `none`: the read fails
@@ -31,8 +43,10 @@
   * `assign g t tl`: the Go value behind the node that the type-level builder builds from the typed value `tl`
     (struct entries in any order, unset optional fields left out or explicit - `Schema.conforms` - the built node
     is `Schema.normalize t tl`, C08/C09), `none` if the builder refuses.  Fresh pointers for present optional /
-    nullable values, nil for absent / null, a slice is nil unless something was appended (`reflect.Append` onto the
-    zero value), `Keys` likewise, `Values` is always made (`reflect.MakeMap` in `BeginMap`), exactly the selected
+    nullable values (and for a present value in a non-nullable slot that is a pointer), nil for absent / null, a
+    slice is nil unless something was appended (`reflect.Append` onto the zero value - so an EMPTY list assembled into
+    an optional / nullable field bound to a bare slice leaves it nil, i.e. absent / null: known finding
+    `C19/nilable-slot-empty-list-becomes-absent`, `nilableSlotEmptyList`), `Keys` likewise, `Values` is always made (`reflect.MakeMap` in `BeginMap`), exactly the selected
     union field is set.  Integers: `AssignInt` / `assignUInt` refuse what does not fit the field (`Bind.fits`,
     C19 `width_guard`); an int-represented enum held in a Go integer stores the member's representation int, and
     refuses one the Go kind cannot hold (`OverflowInt` / `OverflowUint`, negative into unsigned): `enumStore`.
@@ -119,6 +133,8 @@ inductive GoVal where
   | slice (xs : GoVals)
   | nilPtr
   | ptr (v : GoVal)
+  /-- a nil `datamodel.Link` / `datamodel.Node` interface value -/
+  | nilIface
   | struct (fs : GoVals)
   /-- `keys = none`: `Keys == nil`; `valsNil`: `Values == nil` (then `vals` is empty) -/
   | omap (keys : Option (List Bytes)) (valsNil : Bool) (vals : GoKVs)
@@ -158,12 +174,56 @@ def GoKVs.lookup : GoKVs → Bytes → Option GoVal
   | .nil, _ => none
   | .cons k v es, q => if k == q then some v else es.lookup q
 
+/-! ## Slots -/
+
+def notPtr : GoTy → Bool
+  | .ptr _ => false
+  | _ => true
+
+/-- The nil value of a Go type that is nilable WITHOUT a pointer (`ptrOrNilable`: slice, interface): what an
+    optional / nullable struct field bound to the bare type holds when it is absent / null.  (`.nilSlice` also stands
+    for a nil `[]byte` here.) -/
+def bareNil : GoTy → Option GoVal
+  | .slice _ => some .nilSlice
+  | .bytes => some .nilSlice
+  | .link .iface => some .nilIface
+  | .node => some .nilIface
+  | _ => none
+
+def isBare (g : GoTy) : Bool := (bareNil g).isSome
+
+/-- How a struct field of Go type `g` carries "optional" / "nullable" (`verifyCompatibility`'s struct case and the
+    struct iterator / `LookupByString` / `AssembleValue`):
+    `value`   - not optional: `g` is a value slot, nullable iff the field is (a pointer when nullable; possibly a
+                pointer when not: `verifyCompatibility` strips one pointer from every type it is handed);
+    `optPtr`  - optional behind a pointer `*g1`; `g1` is the value slot (nullable iff the field is: the double pointer);
+    `optBare` - optional, not nullable, bound to a bare nilable type: nil is absent;
+    `nulBare` - nullable, not optional, bound to a bare nilable type: nil is null;
+    `bad`     - an optional field that is neither (`verifyCompatibility` panics). -/
+inductive FSlot where
+  | value | optPtr (g1 : GoTy) | optBare | nulBare | bad
+  deriving DecidableEq, Repr, Inhabited
+
+def ptrElem : GoTy → Option GoTy
+  | .ptr g1 => some g1
+  | _ => none
+
+def fslot (g : GoTy) (opt nul : Bool) : FSlot :=
+  match opt, ptrElem g, nul, isBare g with
+  | true, some g1, _, _ => .optPtr g1
+  | true, none, false, true => .optBare
+  | true, none, _, _ => .bad
+  | false, _, true, true => .nulBare
+  | false, _, _, _ => .value
+
 /-! ## Compatibility -/
 
 mutual
-/-- The Go type `g` is bound to schema type `t` in a slot that is nullable iff `nul`. -/
+/-- The Go type `g` is bound to schema type `t` in a value slot that is nullable iff `nul` (a list element, a map
+    value, a union member behind its pointer, a struct field after `fslot`).  A nullable value slot is a pointer to a
+    non-pointer type; a slot that is not nullable is the type itself or ONE pointer to it. -/
 def compatible : GoTy → Ty → Bool → Bool
-  | .ptr g, t, nul => nul && compatible g t false
+  | .ptr g, t, _ => notPtr g && compatible g t false
   | .bool, t, nul => !nul && (match t with | .bool => true | _ => false)
   | .int _, t, nul => !nul && (match t with | .int => true | .enum _ .int => true | _ => false)
   | .float, t, nul => !nul && (match t with | .float => true | _ => false)
@@ -178,12 +238,17 @@ def compatible : GoTy → Ty → Bool → Bool
              | .struct fs _ => compatFields gfs fs.toList
              | .union ms _ => compatMembers gfs ms.toList
              | _ => false)
-/-- field by field, in order: an optional field adds one pointer -/
+/-- field by field, in order (`fslot`, spelled out for the structural recursion: `compatFields_cons`) -/
 def compatFields : GoFields → List Field → Bool
   | .nil, [] => true
   | .cons n g rest, f :: fs =>
     n == f.name
-    && (if f.opt then (match g with | .ptr g1 => compatible g1 f.ty f.nullable | _ => false)
+    && (if f.opt then
+          (if isBare g then !f.nullable && compatible g f.ty false
+           else match g with
+             | .ptr g1 => compatible g1 f.ty f.nullable
+             | _ => false)
+        else if f.nullable && isBare g then compatible g f.ty false
         else compatible g f.ty f.nullable)
     && compatFields rest fs
   | _, _ => false
@@ -211,7 +276,8 @@ def lookupAll (tvs : List (Bytes × TL)) : List Bytes → Option (List (Bytes ×
 mutual
 def view : GoTy → Ty → Bool → GoVal → Option TL
   | g, _, nul, .nilPtr => if nul then (match g with | .ptr _ => some .null | _ => none) else none
-  | g, t, nul, .ptr v => if nul then (match g with | .ptr g1 => view g1 t false v | _ => none) else none
+  | g, t, _, .ptr v => (match g with | .ptr g1 => view g1 t false v | _ => none)
+  | _, _, _, .nilIface => none
   | g, t, nul, .bool b => if nul then none else match g, t with
     | .bool, .bool => some (.bool b)
     | _, _ => none
@@ -263,15 +329,31 @@ def viewFields : GoFields → List Field → GoVals → Option TLKVs
   | .nil, [], .nil => some .nil
   | .cons _ g gfs, f :: fs, .cons .nilPtr xs =>
     zipSome (TLKVs.cons f.name)
-      (if f.opt then (match g with | .ptr _ => some TL.absent | _ => none) else view g f.ty f.nullable .nilPtr)
+      (match fslot g f.opt f.nullable with
+       | .value => view g f.ty f.nullable .nilPtr
+       | .optPtr _ => some TL.absent
+       | .optBare => if bareNil g = some .nilPtr then some TL.absent else view g f.ty false .nilPtr
+       | .nulBare => if bareNil g = some .nilPtr then some TL.null else view g f.ty false .nilPtr
+       | .bad => none)
       (viewFields gfs fs xs)
   | .cons _ g gfs, f :: fs, .cons (.ptr v) xs =>
     zipSome (TLKVs.cons f.name)
-      (if f.opt then (match g with | .ptr g1 => view g1 f.ty f.nullable v | _ => none)
-       else view g f.ty f.nullable (.ptr v))
+      (match fslot g f.opt f.nullable with
+       | .value => view g f.ty f.nullable (.ptr v)
+       | .optPtr g1 => view g1 f.ty f.nullable v
+       | .optBare => if bareNil g = some (.ptr v) then some TL.absent else view g f.ty false (.ptr v)
+       | .nulBare => if bareNil g = some (.ptr v) then some TL.null else view g f.ty false (.ptr v)
+       | .bad => none)
       (viewFields gfs fs xs)
   | .cons _ g gfs, f :: fs, .cons x xs =>
-    zipSome (TLKVs.cons f.name) (if f.opt then none else view g f.ty f.nullable x) (viewFields gfs fs xs)
+    zipSome (TLKVs.cons f.name)
+      (match fslot g f.opt f.nullable with
+       | .value => view g f.ty f.nullable x
+       | .optPtr _ => none
+       | .optBare => if bareNil g = some x then some TL.absent else view g f.ty false x
+       | .nulBare => if bareNil g = some x then some TL.null else view g f.ty false x
+       | .bad => none)
+      (viewFields gfs fs xs)
   | _, _, _ => none
 /-- `unionMember`: the first non-nil field -/
 def viewUnion : GoFields → List Member → GoVals → Option TL
@@ -288,10 +370,17 @@ end
 
 /-! ## build + Unwrap -/
 
+/-- the type behind the pointer of a value slot, if there is one (a nullable slot has one) -/
 def unptr (nul : Bool) (g : GoTy) : Option GoTy :=
-  if nul then (match g with | .ptr g1 => some g1 | _ => none) else some g
+  match g with
+  | .ptr g1 => some g1
+  | g => if nul then none else some g
 
-def wrapPtr (nul : Bool) (v : GoVal) : GoVal := if nul then .ptr v else v
+/-- a fresh pointer where the slot is one (`createNonPtrVal`) -/
+def wrapFor (g : GoTy) (v : GoVal) : GoVal :=
+  match g with
+  | .ptr _ => .ptr v
+  | _ => v
 
 /-- the union struct with field `i` of `n` set -/
 def nilPtrs : Nat → GoVals
@@ -325,19 +414,19 @@ mutual
 def assignC (g : GoTy) (t : Ty) (nul : Bool) : TL → Option GoVal
   | .absent => none
   | .null => if nul then (match g with | .ptr _ => some .nilPtr | _ => none) else none
-  | .bool b => Option.map (wrapPtr nul) (match unptr nul g, t with
+  | .bool b => Option.map (wrapFor g) (match unptr nul g, t with
     | some .bool, .bool => some (.bool b)
     | some .node, .any => some (.node (.bool b))
     | _, _ => none)
-  | .int i => Option.map (wrapPtr nul) (match unptr nul g, t with
+  | .int i => Option.map (wrapFor g) (match unptr nul g, t with
     | some (.int k), .int => if Bind.fits k.width i then some (.int i) else none
     | some .node, .any => some (.node (.int i))
     | _, _ => none)
-  | .float f => Option.map (wrapPtr nul) (match unptr nul g, t with
+  | .float f => Option.map (wrapFor g) (match unptr nul g, t with
     | some .float, .float => some (.float f)
     | some .node, .any => some (.node (.float f))
     | _, _ => none)
-  | .str s => Option.map (wrapPtr nul) (match unptr nul g, t with
+  | .str s => Option.map (wrapFor g) (match unptr nul g, t with
     | some .str, .str => some (.str s)
     | some .str, .enum ms _ => if ms.any (fun m => m.name == s) then some (.str s) else none
     | some (.int k), .enum ms .int =>
@@ -346,19 +435,19 @@ def assignC (g : GoTy) (t : Ty) (nul : Bool) : TL → Option GoVal
       | none => none
     | some .node, .any => some (.node (.str s))
     | _, _ => none)
-  | .bytes b => Option.map (wrapPtr nul) (match unptr nul g, t with
+  | .bytes b => Option.map (wrapFor g) (match unptr nul g, t with
     | some .bytes, .bytes => some (.bytes b)
     | some .node, .any => some (.node (.bytes b))
     | _, _ => none)
-  | .link c => Option.map (wrapPtr nul) (match unptr nul g, t with
+  | .link c => Option.map (wrapFor g) (match unptr nul g, t with
     | some (.link _), .link => some (.link c)
     | some .node, .any => some (.node (.link c))
     | _, _ => none)
-  | .list xs => Option.map (wrapPtr nul) (match unptr nul g, t with
+  | .list xs => Option.map (wrapFor g) (match unptr nul g, t with
     | some (.slice ge), .list et enul => (assignList ge et enul xs).map sliceOf
     | some .node, .any => (TL.toDM? (.list xs)).map GoVal.node
     | _, _ => none)
-  | .map es => Option.map (wrapPtr nul) (match unptr nul g, t with
+  | .map es => Option.map (wrapFor g) (match unptr nul g, t with
     | some (.omap gv), .map vt vnul => (assignKVs gv vt vnul es).map (GoVal.omap (keysOf es) false)
     | some (.struct gfs), .struct fs _ => (assignFields gfs fs.toList es).map GoVal.struct
     | some (.struct gfs), .union ms _ =>
@@ -385,10 +474,12 @@ def assignFields : GoFields → List Field → TLKVs → Option GoVals
   | .cons _ g gfs, f :: fs, .cons k v es =>
     if k != f.name then none else
     zipSome GoVals.cons
-      (if v = .absent then
-         (if f.opt then (match g with | .ptr _ => some GoVal.nilPtr | _ => none) else none)
-       else if f.opt then (match g with | .ptr g1 => (assignC g1 f.ty f.nullable v).map GoVal.ptr | _ => none)
-       else assignC g f.ty f.nullable v)
+      (match fslot g f.opt f.nullable with
+       | .value => assignC g f.ty f.nullable v
+       | .optPtr g1 => if v = .absent then some GoVal.nilPtr else (assignC g1 f.ty f.nullable v).map GoVal.ptr
+       | .optBare => if v = .absent then bareNil g else assignC g f.ty false v
+       | .nulBare => if v = .null then bareNil g else assignC g f.ty false v
+       | .bad => none)
       (assignFields gfs fs es)
   | _, _, _ => none
 end
@@ -433,7 +524,8 @@ def allNil : GoFields → List Member → GoVals → Bool
 mutual
 def wt : GoTy → Ty → Bool → GoVal → Bool
   | g, _, nul, .nilPtr => nul && (match g with | .ptr _ => true | _ => false)
-  | g, t, nul, .ptr v => nul && (match g with | .ptr g1 => wt g1 t false v | _ => false)
+  | g, t, _, .ptr v => (match g with | .ptr g1 => wt g1 t false v | _ => false)
+  | _, _, _, .nilIface => false
   | g, t, nul, .bool _ => !nul && (match g, t with | .bool, .bool => true | _, _ => false)
   | g, t, nul, .int i => !nul && (match g, t with
     | .int k, .int => Bind.fits k.width i
@@ -473,14 +565,29 @@ def wtKVs (g : GoTy) (t : Ty) (nul : Bool) : GoKVs → Bool
 def wtFields : GoFields → List Field → GoVals → Bool
   | .nil, [], .nil => true
   | .cons _ g gfs, f :: fs, .cons .nilPtr xs =>
-    (if f.opt then (match g with | .ptr _ => true | _ => false) else wt g f.ty f.nullable .nilPtr)
+    (match fslot g f.opt f.nullable with
+     | .value => wt g f.ty f.nullable .nilPtr
+     | .optPtr _ => true
+     | .optBare => bareNil g = some .nilPtr || wt g f.ty false .nilPtr
+     | .nulBare => bareNil g = some .nilPtr || wt g f.ty false .nilPtr
+     | .bad => false)
     && wtFields gfs fs xs
   | .cons _ g gfs, f :: fs, .cons (.ptr v) xs =>
-    (if f.opt then (match g with | .ptr g1 => wt g1 f.ty f.nullable v | _ => false)
-     else wt g f.ty f.nullable (.ptr v))
+    (match fslot g f.opt f.nullable with
+     | .value => wt g f.ty f.nullable (.ptr v)
+     | .optPtr g1 => wt g1 f.ty f.nullable v
+     | .optBare => bareNil g = some (.ptr v) || wt g f.ty false (.ptr v)
+     | .nulBare => bareNil g = some (.ptr v) || wt g f.ty false (.ptr v)
+     | .bad => false)
     && wtFields gfs fs xs
   | .cons _ g gfs, f :: fs, .cons x xs =>
-    (if f.opt then false else wt g f.ty f.nullable x) && wtFields gfs fs xs
+    (match fslot g f.opt f.nullable with
+     | .value => wt g f.ty f.nullable x
+     | .optPtr _ => false
+     | .optBare => bareNil g = some x || wt g f.ty false x
+     | .nulBare => bareNil g = some x || wt g f.ty false x
+     | .bad => false)
+    && wtFields gfs fs xs
   | _, _, _ => false
 /-- exactly one field set -/
 def wtUnion : GoFields → List Member → GoVals → Bool
@@ -533,10 +640,61 @@ def intsFitKVs (g : GoTy) (t : Ty) (nul : Bool) : TLKVs → Bool
   | .cons _ x es => intsFit g t nul x && intsFitKVs g t nul es
 def intsFitFields : GoFields → List Field → TLKVs → Bool
   | .cons _ g gfs, f :: fs, .cons _ v es =>
-    (if v = .absent then true
-     else if f.opt then (match g with | .ptr g1 => intsFit g1 f.ty f.nullable v | _ => true)
-     else intsFit g f.ty f.nullable v) && intsFitFields gfs fs es
+    (match fslot g f.opt f.nullable with
+     | .value => intsFit g f.ty f.nullable v
+     | .optPtr g1 => intsFit g1 f.ty f.nullable v
+     | .optBare => intsFit g f.ty false v
+     | .nulBare => intsFit g f.ty false v
+     | .bad => true) && intsFitFields gfs fs es
   | _, _, _ => true
+end
+
+/-! ## Side condition of `view_assign`: known finding `C19/nilable-slot-empty-list-becomes-absent` -/
+
+/-- an empty list is assembled into a Go slice -/
+def emptyIntoSlice (g : GoTy) (v : TL) : Bool :=
+  match g with
+  | .slice _ => decide (v = .list .nil)
+  | _ => false
+
+mutual
+/-- Somewhere in the canonical typed value an EMPTY LIST is assembled into an optional or nullable struct field that
+    is bound to a bare Go slice: the list assembler only appends to the zero value, the slice stays nil, and nil in
+    such a field reads as absent (optional) / null (nullable). -/
+def nilableSlotEmptyList (g : GoTy) (t : Ty) (nul : Bool) : TL → Bool
+  | .list xs => (match unptr nul g, t with
+    | some (.slice ge), .list et enul => nilableSlotEmptyListL ge et enul xs
+    | _, _ => false)
+  | .map es => (match unptr nul g, t with
+    | some (.omap gv), .map vt vnul => nilableSlotEmptyListM gv vt vnul es
+    | some (.struct gfs), .struct fs _ => nilableSlotEmptyListF gfs fs.toList es
+    | some (.struct gfs), .union ms _ =>
+      (match es with
+       | .cons k v .nil =>
+         (match findIdx (fun m => m.name == k) ms.toList with
+          | some (i, m) =>
+            (match gfs.get? i with
+             | some (.ptr g1) => nilableSlotEmptyList g1 m.ty false v
+             | _ => false)
+          | none => false)
+       | _ => false)
+    | _, _ => false)
+  | _ => false
+def nilableSlotEmptyListL (g : GoTy) (t : Ty) (nul : Bool) : TLs → Bool
+  | .nil => false
+  | .cons x xs => nilableSlotEmptyList g t nul x || nilableSlotEmptyListL g t nul xs
+def nilableSlotEmptyListM (g : GoTy) (t : Ty) (nul : Bool) : TLKVs → Bool
+  | .nil => false
+  | .cons _ x es => nilableSlotEmptyList g t nul x || nilableSlotEmptyListM g t nul es
+def nilableSlotEmptyListF : GoFields → List Field → TLKVs → Bool
+  | .cons _ g gfs, f :: fs, .cons _ v es =>
+    (match fslot g f.opt f.nullable with
+     | .value => nilableSlotEmptyList g f.ty f.nullable v
+     | .optPtr g1 => nilableSlotEmptyList g1 f.ty f.nullable v
+     | .optBare => emptyIntoSlice g v || nilableSlotEmptyList g f.ty false v
+     | .nulBare => emptyIntoSlice g v || nilableSlotEmptyList g f.ty false v
+     | .bad => false) || nilableSlotEmptyListF gfs fs es
+  | _, _, _ => false
 end
 
 end GoBind
